@@ -14,7 +14,7 @@ Only property theorems live here (each is audited with `#print axioms`); the mod
 `specTransform`) is `RuschmSpec/Macro.lean`, helper lemmas are in
 `RuschmProofs/Macro{Lemmas,Match,Subst}.lean`.
 -/
-import RuschmProofs.MacroGroups
+import RuschmProofs.MacroFuel
 
 namespace Ruschm.C04
 open Ruschm Ruschm.Macro Ruschm.Macro.Ex
@@ -163,6 +163,16 @@ theorem match_terminates_matchFuel {lits fuel p d σ l} (hp : p.size ≤ 3 * d.s
 example : matchFuel (lst [num 1]) = 76 ∧ (plist [.ident "a", .ellipsis]).size = 5 :=
   ⟨by decide, by decide⟩
 
+/-- For SUPPORTED patterns (shape only; no condition on the variables) the fuel need depends on the
+datum only: the model's own `matchFuel d` suffices whatever the size of the pattern. -/
+theorem match_terminates_supported {lits fuel p d σ l} (hok : Pat.ok lits p = true)
+    (h : matchFuel d ≤ fuel) : matchDatum fuel lits p d σ ≠ .error (.fuel, l) :=
+  matchDatum_fuel_supported hok (by unfold matchFuel at h; omega)
+
+example : Pat.ok [] (plist [plist [.ident "a", .ident "b"], .ellipsis]) = true ∧
+    matchDatum (matchFuel (lst [lst [num 1, num 2]])) [] (plist [plist [.ident "a", .ident "b"], .ellipsis])
+      (lst [lst [num 1, num 2]]) [] = .ok (true, [("a", num 1, []), ("b", num 2, [])]) := ⟨rfl, rfl⟩
+
 /-- full-strength statement with the model's own `matchFuel`: FALSE -/
 def match_terminates_full : Prop :=
   ∀ (lits : List String) (fuel : Nat) (p : Pat) (d : Datum) (σ : Subst) (l : Loc),
@@ -228,6 +238,25 @@ theorem match_eq_spec' {lits fuel p d} (hs : Supported lits p = true)
 
 example : ∃ σ, matchDatum 20 [] (plist [.ident "a"]) (lst [num 1]) [] = .ok (true, σ) ∧
     σ.toBindings = [("a", [num 1])] := ⟨_, rfl, rfl⟩
+
+/-- `match_eq_spec` with the model's own `matchFuel d` (what `transform` is run with) -/
+theorem match_eq_spec_matchFuel {lits fuel p d} (hs : Supported lits p = true)
+    (hf : matchFuel d ≤ fuel) :
+    (∀ β, specMatch lits p d = some β →
+      matchDatum fuel lits p d [] = .ok (true, β.toSubst) ∧ β.toSubst.toBindings = β) ∧
+    (specMatch lits p d = none → ∃ σ', matchDatum fuel lits p d [] = .ok (false, σ')) := by
+  have hok : Pat.ok lits p = true := by
+    simp only [Supported, Bool.and_eq_true] at hs; exact hs.1
+  have := matchDatum_eq_spec_of_no_fuel (n := fuel) (d := d) hs (match_terminates_supported hok hf)
+  constructor
+  · intro β hβ
+    rw [hβ] at this
+    exact ⟨this, Bindings.toBindings_toSubst (specMatch_nonEmpty hβ)⟩
+  · intro h; rw [h] at this; exact this
+
+example : Supported ["=>"] (plist [.ident "t", .ident "=>", .ident "r"]) = true ∧
+    specMatch ["=>"] (plist [.ident "t", .ident "=>", .ident "r"]) (lst [num 1, sy "=>", sy "f"]) =
+      some [("t", [num 1]), ("r", [sy "f"])] := ⟨rfl, rfl⟩
 
 /-- full-strength statement (all patterns): FALSE -/
 def match_eq_spec_full : Prop :=
@@ -519,6 +548,31 @@ theorem no_silent_misexpansion {fuel r use} (hs : SupportedRules r = true)
 
 example : transform 20 ⟨[], [(plist [.prim (.int 1)], .ident "one")]⟩ (lst [num 2]) =
     .error (.syntax, none) := rfl
+
+/-- `transform_eq_spec` with the fuel the expander is actually run with: `matchFuel use` (or more)
+suffices for every supported rule set, whatever the size of its patterns -/
+theorem transform_eq_spec_matchFuel {fuel r use} (hs : SupportedRules r = true)
+    (hf : matchFuel use ≤ fuel) :
+    transform fuel r use = specTransform r.literals r.rules use :=
+  transformRules_eq_spec_matchFuel hf r.rules (by simpa [SupportedRules] using hs)
+
+example : transform (matchFuel (lst [num 1, num 2])) ⟨[], [(plist [.ident "x", .ellipsis],
+      .list [(.ident "x", true), (.ident "x", true)])]⟩ (lst [num 1, num 2]) =
+    .ok (lst [num 1, num 2, num 1, num 2]) := rfl
+
+/-- `no_silent_misexpansion` with `matchFuel use` -/
+theorem no_silent_misexpansion_matchFuel {fuel r use} (hs : SupportedRules r = true)
+    (hf : matchFuel use ≤ fuel) :
+    (∃ pre p t post β, r.rules = pre ++ (p, t) :: post ∧
+      (∀ q ∈ pre, specMatch r.literals q.1 use = none) ∧ specMatch r.literals p use = some β ∧
+      transform fuel r use = .ok (specInst t β use.loc)) ∨
+    ((∀ q ∈ r.rules, specMatch r.literals q.1 use = none) ∧
+      transform fuel r use = .error (.syntax, none)) := by
+  rw [transform_eq_spec_matchFuel hs hf]
+  exact specTransform_cases r.literals r.rules use
+
+example : transform (matchFuel (lst [])) ⟨[], [(plist [.ident "x", .ellipsis],
+      .list [(.ident "x", true)])]⟩ (lst []) = .error (.syntax, none) := rfl
 
 /-- full-strength statement (all rule sets): FALSE -/
 def no_silent_misexpansion_full : Prop :=
